@@ -42,7 +42,7 @@ REQUIRED_THEOREMS = [
     "no_list_edit_changes_world", "xrun_heap_is_run", "inv_xrun", "dataLive_xrun", "owners_xrun",
     "caller_list_kept", "edit_owned_changes_members",
     # Props/C15b.lean (theorem-gap round): values of field/field arithmetic, of negation, of copied collections
-    "binop_field_values", "negate_field_values", "copy_collection_reads_members",
+    "binop_field_values", "inplace_field_values", "negate_field_values", "copy_collection_reads_members",
 ]
 EXTRA_PROP_FILES = ["C15b"]
 # floors on what a quick run must have explored (run.py): in-place operations on list objects of the caller
